@@ -328,6 +328,18 @@ package logqlengine
 //@   return hasEntry(a, name) && !has(a.without, name) && (a.by == nil || has(a.by, name))
 //@ }
 
+// The label set a series is reported with is made of exactly the pairs forEach shows (the same
+// visibility rule the key hashes): each visible pair is stored under its name, nothing else is.
+//@ func (*aggregatedLabels).AsLokiAPI
+//@   capture fe = call(a.forEach, 0)
+//@   ensures[reports-the-visible-pairs] fe_called && fe_recv == a && ret0 != nil
+//@ func (*aggregatedLabels).AsLokiAPI$1
+//@   logical other string
+//@   requires r != nil
+//@   modifies r[*]
+//@   ensures[pair-reported-under-its-name] has(r, k) && r[k] == v
+//@   ensures[other-pairs-untouched] other != k ==> has(r, other) == old(has(r, other)) && r[other] == old(r[other])
+
 //@ func (*aggregatedLabels).forEach
 //@   assume_pure cb
 //@   capture c = call(cb, 0)
@@ -363,7 +375,16 @@ package logqlengine
 
 //@ func (*LabelSet).Range
 //@   inline
+//@   capture c = call(cb, 0)
 //@   loop 0 modifies *
+//@   loop 0 exit_ensures[every-label-is-visited] rangedone()
+//@   loop 0 body_ensures[the-callback-sees-the-label-and-its-value] c_called && c_a0 == k && same(c_a1, v)
+
+// Every label of the record's set becomes one entry, under its own name and with the value the
+// set shows for it (typed values through their text); nothing is skipped and nothing is added.
+//@ func newAggregatedLabels$1
+//@   modifies labels, labels[*]
+//@   ensures[the-label-becomes-the-next-entry] len(labels) == old(len(labels)) + 1 && labels[len(labels)-1].name == string(l) && labels[len(labels)-1].value == v.AsString()
 
 //@ func newAggregatedLabels
 //@   modifies nothing
@@ -415,7 +436,30 @@ package logqlengine
 //@   ensures[failing-template-keeps-line-and-flags] ex_called && (ex_r0 != nil ==> ret0 == line && has(set.labels, logql.ErrorLabel))
 //@   ensures[output-is-the-expansion-alone] ex_r0 == nil ==> ret0 == bufferContent(lf.buf) && ex_recv == lf.tmpl && as[*bytes.Buffer](ex_a0) == lf.buf
 
+// keep / drop never touch the line and never drop it; every label of the set is offered to the
+// stage's decision (the Range clauses of LabelSet.Range are checked inside Process), and a label
+// leaves the set exactly when that decision says so; no other label is touched by that step.
+//@ func (*KeepLabels).Process
+//@   ensures[line-kept-unchanged] ret0 == line && ret1
+//@ func (*KeepLabels).Process$1
+//@   logical other logql.Label
+//@   capture kp = call(k.keepPair, 0)
+//@   modifies set.labels[*]
+//@   ensures[decided-by-keepPair] kp_called && kp_a0 == label && same(kp_a1, val)
+//@   ensures[label-stays-iff-kept] has(set.labels, label) == (old(has(set.labels, label)) && kp_r0)
+//@   ensures[other-labels-untouched] other != label ==> has(set.labels, other) == old(has(set.labels, other)) && same(set.labels[other], old(set.labels[other]))
+//@ func (*DropLabels).Process
+//@   ensures[line-kept-unchanged] ret0 == line && ret1
+//@ func (*DropLabels).Process$1
+//@   logical other logql.Label
+//@   capture dp = call(k.dropPair, 0)
+//@   modifies set.labels[*]
+//@   ensures[decided-by-dropPair] dp_called && dp_a0 == label && same(dp_a1, val)
+//@   ensures[label-stays-iff-not-dropped] has(set.labels, label) == (old(has(set.labels, label)) && !dp_r0)
+//@   ensures[other-labels-untouched] other != label ==> has(set.labels, other) == old(has(set.labels, other)) && same(set.labels[other], old(set.labels[other]))
+
 //@ func (*DropLabels).dropPair
+//@   modifies nothing
 //@   loop 0 invariant rangeindex+1 <= len(k.matchers[label])
 //@   loop 0 invariant[no-item-matched-so-far] forall(0, rangeindex+1, func(j int) bool { return !k.matchers[label][j].Match(val.AsString()) })
 //@   ensures[a-named-label-is-decided-by-its-name] has(k.drop, label) ==> ret0
@@ -423,6 +467,7 @@ package logqlengine
 //@   ensures[any-matching-item-decides] !has(k.drop, label) ==> ret0 == exists(0, len(k.matchers[label]), func(j int) bool { return k.matchers[label][j].Match(val.AsString()) })
 
 //@ func (*KeepLabels).keepPair
+//@   modifies nothing
 //@   loop 0 invariant rangeindex+1 <= len(k.matchers[label])
 //@   loop 0 invariant[no-item-matched-so-far] forall(0, rangeindex+1, func(j int) bool { return !k.matchers[label][j].Match(val.AsString()) })
 //@   ensures[a-named-label-is-decided-by-its-name] has(k.keep, label) ==> ret0
